@@ -137,9 +137,23 @@ def upper_bound(t):
     return v
 
 
+def bytesref_ctor(F, hty):
+    """the function that validates a slice and builds BytesRef<hty>: `TryFrom::try_from`, or the inherent constructor it forwards
+    to / that is called in its place (found by role: roles.bytesref_ctors) -> instance or None"""
+    from .. import roles
+    keys = [k for k in roles.bytesref_ctors(F) if ("BytesRef<'_, %s>" % hty) in k or ("BytesRef::<'_, %s>" % hty) in k]
+    real = []
+    for k in keys:
+        rt, _ = an.of(F, F.insts[k]).ret()
+        n = G.N(rt) if rt is not None else None
+        if n is not None and n[0] == "call" and n[1] in keys and n[1] != k and n[2] == (("arg", 1),):
+            continue        # forwards to the other one
+        real.append(k)
+    return F.insts[real[0]] if len(real) == 1 else None
+
+
 def check_try_from(ctx, F, hty):
-    key = "<multiboot2_common::bytes_ref::BytesRef<'_, %s> as core::convert::TryFrom<&[u8]>>::try_from" % hty
-    inst = F.insts.get(key)
+    inst = bytesref_ctor(F, hty)
     lab = "try_from<%s>" % short(hty)
     if inst is None:
         ctx.fail("ANCHOR", lab, "BytesRef::<%s>::try_from is instantiated" % short(hty), "", "missing")
@@ -252,11 +266,30 @@ def header_nonwrapping(F, hty):
     return c05.header_guarantee(None, F, hty)
 
 
-def is_ref_from_slice_of(ex, hty, src):
+def _calls_in(t, acc=None):
+    acc = [] if acc is None else acc
+    if isinstance(t, tuple):
+        if t and t[0] == "call":
+            acc.append(t)
+        for x in t:
+            if isinstance(x, tuple):
+                _calls_in(x, acc)
+    return acc
+
+
+def is_ref_from_slice_of(ex, hty, src, F_=None):
     """the exits `ex` are those of  ref_from_bytes(BytesRef::try_from(src)?)  with the error passed through unchanged
     (ref_from_slice itself, or its body written out / spliced in place, e.g. `try_from(src).and_then(ref_from_bytes)`)"""
     tf = "<multiboot2_common::bytes_ref::BytesRef<'_, %s> as core::convert::TryFrom<&[u8]>>::try_from" % hty
     rfb = "multiboot2_common::DynSizedStructure::<%s>::ref_from_bytes" % hty
+    if F_ is not None:
+        # whichever of the constructor's two names is called (the TryFrom impl or the inherent constructor it forwards to)
+        from .. import roles
+        called = {G.N(x)[1] for e in ex for x in ([e.val] if e.val is not None else []) + list(e.facts)
+                  for x in _calls_in(G.N(x))}
+        for k in roles.bytesref_ctors(F_):
+            if k in called and (("BytesRef<'_, %s>" % hty) in k or ("BytesRef::<'_, %s>" % hty) in k):
+                tf = k
     TF = G.N(("call", tf, (src,)))
     if len(ex) != 2:
         return False
@@ -282,7 +315,7 @@ def check_ref_from_slice(ctx, F, hty):
         return
     A = an.of(F, inst)
     ex = CH.exits(A)
-    ok = is_ref_from_slice_of(ex, hty, ("arg", 1, "&[u8]"))
+    ok = is_ref_from_slice_of(ex, hty, ("arg", 1, "&[u8]"), F)
     ctx.check(ok, "B5", lab,
               "ref_from_slice(bytes) = ref_from_bytes(BytesRef::try_from(bytes)?) with the error passed through unchanged",
               A.site(), how="exits: %s" % [G.show(e.val) for e in ex], why="exits: %s" % [G.show(e.val) for e in ex])
@@ -418,9 +451,14 @@ def run(ctx):
             for st in bb["s"]:
                 if st["k"] == "assign" and st["rv"]["k"] == "aggr" and st["rv"].get("adt", "").endswith("bytes_ref::BytesRef"):
                     ctors.append((k, f))
+    from .. import roles as _roles
+    ctor_paths = {F.insts[k_].get("path") for k_ in _roles.bytesref_ctors(F)}
+
     def in_try_from(f):
         if f.get("name") == "try_from" and f.get("impl_trait") == "core::convert::TryFrom":
             return True
+        if f.get("path") in ctor_paths:
+            return True          # the inherent validating constructor (same role, decided by B1 like try_from)
         # a closure written inside try_from (e.g. `check(..).map(|()| Self {..})`) is part of try_from
         root = F.fns.get(f.get("root")) if f.get("closure") and f.get("root") else None
         return root is not None and root.get("name") == "try_from" and root.get("impl_trait") == "core::convert::TryFrom"
